@@ -31,9 +31,9 @@ func vParseDurationCB(s string) (time.Duration, error) {
 func verifC13_CircuitBreakerPolicy() {
 	vParsedCB = map[string]time.Duration{}
 	// numeric ranges are read from the jsonschema tags of the current source (vSchemaInt)
-	tmin := func(f string) int64 { return int64(vSchemaInt(CircuitBreakerPolicy{}, f, "minimum", 0)) }
+	tmin := func(f string) int64 { return int64(vSchemaMinimum(CircuitBreakerPolicy{}, f, 0)) }
 	tmax := func(f string) int64 { return int64(vSchemaInt(CircuitBreakerPolicy{}, f, "maximum", 255)) }
-	wmin := vSchemaInt(CircuitBreakerPolicy{}, "SlidingWindowSize", "minimum", 0)
+	wmin := vSchemaMinimum(CircuitBreakerPolicy{}, "SlidingWindowSize", 0)
 	p := &CircuitBreakerPolicy{
 		FailureRateThreshold:             uint8(verifInt("failureRateThreshold", tmin("FailureRateThreshold"), tmax("FailureRateThreshold"))),
 		SlowCallRateThreshold:            uint8(verifInt("slowCallRateThreshold", tmin("SlowCallRateThreshold"), tmax("SlowCallRateThreshold"))),
